@@ -11,7 +11,8 @@ Record tsnap := TSnap {
   ts_name : name; ts_status : status; ts_start : bool; ts_end : bool; ts_skipped : bool; ts_exit : Z; ts_errored : bool;
   ts_err : option err; ts_canceled : bool; ts_def : taskdef }.
 Inductive phase_kind := KTop | KScan | KExited.
-Record ssnap := SSnap { ss_phase : phase_kind; ss_todo : list name; ss_entry : list name; ss_running : list name }.
+Record ssnap := SSnap { ss_phase : phase_kind; ss_todo : list name; ss_entry : list name; ss_running : list name;
+  ss_notify_err : list name; ss_notify_done : list name (* stage goroutines parked before notifying "error" / "done" *) }.
 Record jsnap := JSnap {
   js_id : nat; js_pipe : name; js_start : bool; js_end : bool; js_completed : bool; js_canceled : bool; js_lasterr : option err;
   js_timer : bool; js_delay : nat; js_env : nat; js_vars : vkind; js_user : nat; js_tasks : list tsnap; js_sched : option ssnap;
@@ -46,11 +47,15 @@ Definition obs_task (t : jtask) : tsnap :=
   TSnap (jt_name t) (jt_status t) (is_some (jt_start t)) (is_some (jt_end t)) (jt_skipped t) (jt_exit t) (jt_errored t)
         (jt_err t) (jt_canceled t) (jt_def t).
 
+Definition is_err_note (x : name * option err * bool) : bool := match x.1.2 with Some _ => negb x.2 | None => false end.
+Definition notify_err (sc : sched) : list name := sort_names (map (fun x : name * option err * bool => x.1.1) (List.filter is_err_note (sc_ending sc))).
+Definition notify_done (sc : sched) : list name :=
+  sort_names (map (fun x : name * option err * bool => x.1.1) (List.filter (fun x => negb (is_err_note x)) (sc_ending sc))).
 Definition obs_sched (sc : sched) : ssnap :=
   match sc_phase sc with
-  | PTop => SSnap KTop [] (sort_names (sc_entry sc)) (sort_names (sc_running sc))
-  | PScan todo => SSnap KScan (sort_names todo) (sort_names (sc_entry sc)) (sort_names (sc_running sc))
-  | PExited => SSnap KExited [] (sort_names (sc_entry sc)) (sort_names (sc_running sc))
+  | PTop => SSnap KTop [] (sort_names (sc_entry sc)) (sort_names (sc_running sc)) (notify_err sc) (notify_done sc)
+  | PScan todo => SSnap KScan (sort_names todo) (sort_names (sc_entry sc)) (sort_names (sc_running sc)) (notify_err sc) (notify_done sc)
+  | PExited => SSnap KExited [] (sort_names (sc_entry sc)) (sort_names (sc_running sc)) (notify_err sc) (notify_done sc)
   end.
 
 Definition obs_job (id : nat) (j : job) : jsnap :=
@@ -193,7 +198,7 @@ Definition check_status_case (deps : list (status * bool)) : bool * bool :=
     JTask n (TaskDef ds allow false 0%nat 0%nat) st None None false 0%Z false None false in
   let tasks := imap (fun i d => mk i [] (snd d) (fst d)) deps ++ [mk 100%nat names false Waiting] in
   let j := Job 0%nat 0%Z None None false false 0%nat false tasks 0%nat VNone 0%nat None None 0%nat false false in
-  let sc := Sched (imap (fun i d => (i, fst d)) deps ++ [(100%nat, Waiting)]) false false PTop [] [] None in
+  let sc := Sched (imap (fun i d => (i, fst d)) deps ++ [(100%nat, Waiting)]) false false PTop [] [] None [] in
   check_status sc j 100%nat.
 
 Definition check_status_mismatches (cs : list (nat * list (status * bool) * bool * bool)) : list nat :=
